@@ -144,6 +144,9 @@ func (propC09) Gen(r *Rng, idx int, tier string) *Scenario {
 	if p.First != nil && len(p.Faults) == 1 && p.Faults[0].Kind == "help" && p.Completion == "" && r.Fork("helpoff").Chance(1, 2) {
 		p.HelpOff = true
 	}
+	if sr := r.Fork("shadow"); sr.Chance(1, 3) && p.First == nil && p.Completion == "" && !p.CompPanic {
+		addShadow(sc, sr)
+	}
 	if p.CompPanic {
 		cpr := r.Fork("comppanic2")
 		p.Faults = nil
@@ -155,6 +158,73 @@ func (propC09) Gen(r *Rng, idx int, tier string) *Scenario {
 		p.Fd1Faults, p.Fd2Faults = wf, wf
 	}
 	return sc
+}
+
+// addShadow: the innermost selected command declares an option of its own under
+// both names of a required option of the application's own group (a documented
+// feature: the nearer declaration wins from the command word on). The planned
+// line gives the required option before the first command word, so it is still
+// valid; the fault takes that occurrence away. The required option is then
+// missing, whatever the command declares under the same names.
+func addShadow(sc *Scenario, r *Rng) {
+	d, p := sc.Decl, sc.C09
+	if d.Root == nil || len(p.Plan.Chain) == 0 {
+		return
+	}
+	var last *CmdSpec
+	cs := d.Commands
+	for _, name := range p.Plan.Chain {
+		last = findCmd(cs, name)
+		if last == nil {
+			return
+		}
+		cs = last.Commands
+	}
+	var target *GroupSpec
+	switch {
+	case last.Own != nil:
+		target = last.Own
+	case len(last.Groups) > 0:
+		target = last.Groups[0]
+	default:
+		return
+	}
+	firstCmd := -1
+	for i, t := range p.Plan.Toks {
+		if t.Role == "cmd" {
+			firstCmd = i
+			break
+		}
+	}
+	inRoot := map[*OptSpec]bool{}
+	for _, o := range d.Root.Opts {
+		inRoot[o] = true
+	}
+	var cands []optInfo
+	for _, oi := range optInfos(d) {
+		if len(oi.CmdPath) != 0 || !inRoot[oi.O] || !oi.O.Required || oi.O.Long == "" || oi.LongFull != oi.O.Long {
+			continue
+		}
+		ok, given := true, false
+		for i, t := range p.Plan.Toks {
+			if t.Opt == oi.Path {
+				given = true
+				ok = ok && i < firstCmd
+			}
+			if t.Role == "cluster" && (i > firstCmd || (oi.O.Short != "" && strings.Contains(t.Text, oi.O.Short))) {
+				ok = false
+			}
+		}
+		if ok && given {
+			cands = append(cands, oi)
+		}
+	}
+	if len(cands) == 0 {
+		return
+	}
+	oi := cands[r.Intn(len(cands))]
+	target.Opts = append(target.Opts, &OptSpec{Field: "FShadowZz", Kind: oi.O.Kind, Long: oi.O.Long, Short: oi.O.Short})
+	p.Faults = []ArgFault{{Kind: "delete-required", Opt: oi.Path, Expect: "required", Note: "shadowed"}}
 }
 
 // faultedInput applies the payload's faults to its plan.
@@ -403,12 +473,15 @@ func c09Oracle(v *Verdict, d *DeclSpec, r *OpResult, target string, label string
 			wantExec = 1
 		}
 	case "late-log":
-		// installed by the first option callback of this very line, if one ran
+		// installed by the first option callback of this very line, if one ran. The
+		// statement asks for exactly one invocation and does not say whether a handler
+		// that appears while the line is parsed already counts: either the handler
+		// (alone) or the command's Execute (alone) is accepted
 		installed := false
 		for _, c := range r.Calls {
 			installed = installed || c.Kind == "callback"
 		}
-		if installed {
+		if installed && len(handlers) == 1 && len(execs) == 0 {
 			wantHandler = 1
 		} else if isExec {
 			wantExec = 1
